@@ -46,6 +46,53 @@ def main():
             finally:
                 shutil.rmtree(d, ignore_errors=True)
             continue
+        if 'handle' in c:   # the real CodeGenerator._handle_post_processors with a stub language object
+            import nunavut._postprocessors as P
+
+            class Other(P.FilePostProcessor):   # any post-processor that is neither built-in line processor
+                def __call__(self, generated):
+                    return generated
+
+            class Lang:
+                def __init__(self, limit, trim):
+                    self.limit, self.trim = limit, trim
+
+                def get_config_value(self, key, default_value=None):
+                    if key == 'limit_empty_lines':
+                        if self.limit is None:
+                            raise KeyError(key)
+                        return str(self.limit)
+                    raise KeyError(key)
+
+                def get_config_value_as_bool(self, key, default_value=False):
+                    return self.trim if key == 'trim_trailing_whitespace' else default_value
+
+            def mkk(k):
+                return Other() if k == 'other' else mk(k)
+
+            def kind(pp):
+                if isinstance(pp, TrimTrailingWhitespace):
+                    return ['trim']
+                if isinstance(pp, LimitEmptyLines):
+                    return ['limit', pp._max_empty_lines]
+                return 'other'
+            try:
+                h = c['handle']
+                given = None if h['given'] is None else [mkk(k) for k in h['given']]
+                res = CodeGenerator._handle_post_processors(Lang(h['cfg_limit'], h['cfg_trim']), given)
+                entry = {'kinds': None if res is None else [kind(pp) for pp in res]}
+                if 'chunks' in c:   # ... and the text written through the line processors of that list (as _generate_code selects them)
+                    line_pps = [pp for pp in (res or []) if isinstance(pp, P.LinePostProcessor)]
+                    if line_pps:
+                        CodeGenerator._generate_with_line_buffer(f, iter(c['chunks']), line_pps)
+                    else:
+                        for part in c['chunks']:
+                            f.write(part)
+                    entry['ok'] = f.getvalue()
+                outs.append(entry)
+            except Exception as ex:  # noqa
+                outs.append({'err': repr(ex)})
+            continue
         if 'copy_text' in c:   # SupportGenerator._copy_header_using_line_pps on a real file (self is unused by the method)
             import os
             import tempfile
